@@ -195,6 +195,9 @@ type c08Case struct {
 	Dev    int    `json:"max_deviations"`
 	Splits bool   `json:"all_splits"`
 	Min    int    `json:"min_len"`
+	// Builtin: instead of operation sequences, the requests the router answers itself (default / silent custom 404 and 405
+	// responders, the body-less OPTIONS reply, a handler that does nothing) on every router configuration
+	Builtin bool `json:"builtin_responders,omitempty"`
 }
 
 type c08Run_ struct {
@@ -404,7 +407,122 @@ func fmtAnswers(a map[int]byte) string {
 	return strings.Join(p, ",")
 }
 
+// c08Builtin: requests whose response is produced by the router itself. Whatever the configuration, the underlying
+// writer must see exactly one WriteHeader, first, with the documented status.
+func c08Builtin(st *fw.Stats) []fw.Viol {
+	var vs []fw.Viol
+	seen := map[string]bool{}
+	type rq struct {
+		m, p string
+	}
+	reqs := []rq{{"GET", "/x"}, {"HEAD", "/x"}, {"OPTIONS", "/x"}, {"DELETE", "/x"}, {"GET", "/none"}, {"OPTIONS", "/none"}, {"POST", "/d/1"}, {"OPTIONS", "/d/1"}, {"GET", "/d/1"}}
+	// bits: 1 HandleMethodNotAllowed, 2 HandleFallbackRoute, 4 one global middleware, 8 OnError hook, 16 OnPanic hook,
+	// 32 silent custom NotFound, 64 silent custom NotAllowed, 128 caching, 256 the global middleware sets status 202 first
+	for mask := 0; mask < 512; mask++ {
+		if mask&256 != 0 && mask&4 == 0 {
+			continue
+		}
+		var opts []func(*rux.Router)
+		if mask&1 != 0 {
+			opts = append(opts, rux.HandleMethodNotAllowed)
+		}
+		if mask&2 != 0 {
+			opts = append(opts, rux.HandleFallbackRoute)
+		}
+		if mask&128 != 0 {
+			opts = append(opts, rux.CachingWithNum(2))
+		}
+		r := rux.New(opts...)
+		if mask&4 != 0 {
+			set := mask&256 != 0
+			r.Use(func(c *rux.Context) {
+				if set {
+					c.SetStatus(202)
+				}
+				c.Next()
+			})
+		}
+		if mask&8 != 0 {
+			r.OnError = func(c *rux.Context) {}
+		}
+		if mask&16 != 0 {
+			r.OnPanic = func(c *rux.Context) {}
+		}
+		if mask&32 != 0 {
+			r.NotFound(func(c *rux.Context) {})
+		}
+		if mask&64 != 0 {
+			r.NotAllowed(func(c *rux.Context) {})
+		}
+		r.GET("/x", func(c *rux.Context) {})
+		r.GET("/d/{id}", func(c *rux.Context) {})
+		for rep := 0; rep < 2; rep++ {
+			for _, q := range reqs {
+				st.Evals++
+				st.Nontrivial++
+				w := &recW{h: http.Header{}}
+				pv := try(func() { r.ServeHTTP(w, httptest.NewRequest(q.m, q.p, nil)) })
+				desc := fmt.Sprintf("router{HandleMethodNotAllowed=%v HandleFallbackRoute=%v caching=%v global middleware=%v(sets 202 first=%v) OnError=%v OnPanic=%v silent custom NotFound=%v silent custom NotAllowed=%v} with GET /x and GET /d/{id} handled by empty handlers: %s %s (request #%d)",
+					mask&1 != 0, mask&2 != 0, mask&128 != 0, mask&4 != 0, mask&256 != 0, mask&8 != 0, mask&16 != 0, mask&32 != 0, mask&64 != 0, q.m, q.p, rep+1)
+				var v *fw.Viol
+				nWH := 0
+				for _, e := range w.log {
+					if strings.HasPrefix(e, "WH:") {
+						nWH++
+					}
+				}
+				// the documented status of the router's own answer (0 = a silent custom handler decides: only the commit is checked)
+				want := 0
+				isX := q.p == "/x" || q.p == "/d/1"
+				switch {
+				case isX && (q.m == "GET" || q.m == "HEAD"):
+					want = 200
+				case isX && mask&1 != 0:
+					if mask&64 == 0 {
+						want = 405
+						if q.m == "OPTIONS" {
+							want = 200
+						}
+					}
+				default:
+					if mask&32 == 0 {
+						want = 404
+					}
+				}
+				if want == 200 && mask&256 != 0 && !(isX && mask&1 != 0 && q.m == "OPTIONS") {
+					want = 202 // the middleware's status stands when nothing later sets one
+				}
+				if want == 0 && mask&256 != 0 {
+					want = 202
+				} else if want == 0 {
+					want = 200
+				}
+				switch {
+				case pv != nil:
+					v = &fw.Viol{Sig: "builtin:panic", Msg: fmt.Sprintf("%s: ServeHTTP panicked: %v", desc, pv)}
+				case nWH == 0:
+					v = &fw.Viol{Sig: "writer:no-header-commit", Msg: fmt.Sprintf("%s: the underlying writer never received WriteHeader; it saw [%s]", desc, strings.Join(w.log, " "))}
+				case nWH > 1:
+					v = &fw.Viol{Sig: "writer:header-committed-twice", Msg: fmt.Sprintf("%s: the underlying writer saw [%s]", desc, strings.Join(w.log, " "))}
+				case !strings.HasPrefix(w.log[0], "WH:"):
+					v = &fw.Viol{Sig: "writer:body-before-header", Msg: fmt.Sprintf("%s: the underlying writer saw [%s]", desc, strings.Join(w.log, " "))}
+				case !strings.HasPrefix(w.log[0], fmt.Sprintf("WH:%d:", want)):
+					v = &fw.Viol{Sig: "writer:wrong-status", Msg: fmt.Sprintf("%s: the underlying writer saw [%s], expected status %d", desc, strings.Join(w.log, " "), want)}
+				}
+				if v != nil && !seen[v.Sig] && len(vs) < 6 {
+					seen[v.Sig] = true
+					vs = append(vs, *v)
+				}
+			}
+		}
+	}
+	return vs
+}
+
 func c08RunCase(c c08Case, st *fw.Stats) []fw.Viol {
+	if c.Builtin {
+		return c08Builtin(st)
+	}
 	var vs []fw.Viol
 	seen := map[string]bool{}
 	hz := newC08Harness()
@@ -491,6 +609,7 @@ func c08RunCase(c c08Case, st *fw.Stats) []fw.Viol {
 }
 
 func c08Gen(tier string, emit func(c08Case)) {
+	emit(c08Case{Builtin: true})
 	// the empty and one-operation sequences
 	emit(c08Case{Prefix: "", Depth: 1, Dev: 2, Splits: true})
 	// quick: every split up to length 3, representative splits at length 4 (<=2 faults);
@@ -523,6 +642,7 @@ var c08Spec = fw.Spec[c08Case]{
 	ID:    "C08",
 	Level: "model_checking",
 	Rule: "depth-bounded exhaustive search: ALL operation sequences of length <=4 (thorough 6) over 16 operations {SetStatus(-1,0,200,304,201,404,500,204), SetHeader, Write(\"\"), Write(\"ab\"), Flush, http.Error(418), Redirect(302), Text(201), Stream(203)} x every split of the sequence over middleware-before-Next / main handler / middleware-after-Next (also with the tail run by the OnError hook, with a HandleContext re-dispatch, and on an underlying writer implementing io.ReaderFrom) x every assignment of <=2 non-default answers (short write, error) to the underlying writes (every split up to length 3 (4), 4 representative splits plus OnError / re-dispatch / ReaderFrom variants at length 4 (5), <=1 fault at length 6 in the thorough tier); " +
+		"plus the requests the router answers by itself (default and silent custom 404 / 405 responders, the body-less OPTIONS reply, do-nothing handlers) on all 384 combinations of 9 router settings; " +
 		"oracle = 20-line writer specification compared with the complete event log of a recording ResponseWriter+Flusher; non-trivial = sequence containing a write, flush or helper",
 	Assume: []string{"Text (WriteBytes) is documented to panic when the underlying write fails; after such a panic only the log so far is compared", "Length() is compared once a header was committed"},
 	Bounds: func(tier string) map[string]any {
